@@ -1206,6 +1206,168 @@ def caller_edits_readback(t, before, ed):
     return alias
 
 
+class ListSubclass(list):
+    pass
+
+
+_entry_classes = {}
+
+
+def entry_classes():
+    """RoutingTableEntry and an application subclass of it (per rig module object)"""
+    from rig.routing_table import entries as em
+    if _entry_classes.get("base") is not em.RoutingTableEntry:
+        class NotedEntry(em.RoutingTableEntry):
+            """an application subclass (a namedtuple subclass without __slots__: instances have a __dict__)"""
+            def describe(self):
+                return "noted " + str(self)
+        _entry_classes.update(base=em.RoutingTableEntry, classes=[em.RoutingTableEntry, NotedEntry])
+    return _entry_classes["classes"]
+
+
+def small_int_like(v, i):
+    """x, y and app ids as other true ints: bool, IntEnum member (rig passes plain ints and IntEnum members here,
+    never numpy integers)"""
+    if v in (0, 1) and i % 2 == 0:
+        return bool(v)
+    if i % 3 == 1:
+        import enum
+        return enum.IntEnum("Small", {"member_%d" % i: v})["member_%d" % i]
+    return v
+
+
+class Caller(object):
+    """How the caller talks to a MachineController: argument kinds and calling conventions drawn from `ak`
+    (None: the plain form - sets of Routes, lists, a dict, positional ints).  Nothing here changes what is asked
+    for, only how it is written down."""
+
+    def __init__(self, ak):
+        self.rk = random.Random(ak) if ak is not None else None
+        self.used = set()
+
+    def pick(self, name, options):
+        if self.rk is None:
+            return options[0]
+        o = self.rk.choice(options)
+        self.used.add("ak_%s_%s" % (name, o))
+        return o
+
+    def num(self, v):
+        return v if self.rk is None else small_int_like(v, self.rk.randrange(6))
+
+    def entry(self, e, extra_key=0):
+        from rig.routing_table import Routes
+        route, key, mask = e[0], e[1] + extra_key, e[2]
+        rs = [Routes(r) for r in route]
+        form = self.pick("route", ["set", "frozenset", "list_with_duplicate", "tuple", "iterator"])
+        if form == "frozenset":
+            rs = frozenset(rs)
+        elif form == "list_with_duplicate":
+            rs = rs + rs[:1]
+        elif form == "tuple":
+            rs = tuple(rs)
+        elif form == "iterator":
+            rs = iter(rs)
+        else:
+            rs = set(rs)
+        cls = entry_classes()[0 if self.pick("class", ["RoutingTableEntry", "RoutingTableEntry", "subclass"]) != "subclass" else 1]
+        if self.rk is not None and key < (1 << 32) and self.rk.random() < 0.3:
+            key, mask = int_like(key, self.rk.randrange(6)), int_like(mask, self.rk.randrange(6))
+            self.used.add("ak_key_intlike")
+        src = self.pick("sources", ["default", "default", "unknown", "link", "link_and_unknown", "list"])
+        if src == "default":
+            return cls(rs, key, mask) if self.pick("entry_call", ["pos", "kw"]) == "pos" else cls(route=rs, key=key, mask=mask)
+        sources = {"unknown": {None}, "link": {Routes(len(route) % 6)}, "link_and_unknown": {None, Routes(key % 6)},
+                   "list": [Routes(mask % 6), None]}[src]
+        return cls(rs, key, mask, sources) if self.pick("entry_call", ["pos", "kw"]) == "pos" else \
+            cls(sources=sources, mask=mask, key=key, route=rs)
+
+    def table(self, entries, mutable=False):
+        form = self.pick("table", ["list", "list", "list_subclass"] + ([] if mutable else ["tuple"]))
+        return tuple(entries) if form == "tuple" else ListSubclass(entries) if form == "list_subclass" else list(entries)
+
+    def tables_dict(self):
+        return make_dict(self.pick("tables", ["dict", "dict", "ordered", "default", "subclass"]))
+
+    def chip_key(self, xy):
+        return ChipXY(*xy) if self.pick("chip_key", ["tuple", "tuple", "named"]) == "named" else tuple(xy)
+
+    def load_entries(self, mc, es, xy, app):
+        x, y, app = self.num(xy[0]), self.num(xy[1]), self.num(app)
+        conv = self.pick("load_call", ["pos", "pos", "kw", "ctx", "mixed"])
+        if conv == "kw":
+            return mc.load_routing_table_entries(app_id=app, y=y, x=x, entries=es)
+        if conv == "ctx":
+            with mc(x=x, y=y, app_id=app):
+                return mc.load_routing_table_entries(es)
+        if conv == "mixed":
+            with mc(app_id=app, x=(xy[0] + 1) % 4, y=(xy[1] + 2) % 4):      # x, y of the context are overridden
+                return mc.load_routing_table_entries(es, x, y=y)
+        return mc.load_routing_table_entries(es, x, y, app)
+
+    def load_tables(self, mc, tables, app, elsewhere):
+        app = self.num(app)
+        conv = self.pick("tables_call", ["pos", "pos", "kw", "ctx"])
+        if conv == "kw":
+            return mc.load_routing_tables(app_id=app, routing_tables=tables)
+        if conv == "ctx":
+            with mc(app_id=app, x=elsewhere[0], y=elsewhere[1]):            # the chips come from the dict, not from here
+                return mc.load_routing_tables(tables)
+        return mc.load_routing_tables(tables, app)
+
+    def get(self, mc, xy):
+        x, y = self.num(xy[0]), self.num(xy[1])
+        conv = self.pick("get_call", ["pos", "pos", "kw", "ctx"])
+        if conv == "kw":
+            return mc.get_routing_table_entries(y=y, x=x)
+        if conv == "ctx":
+            with mc(x=x, y=y):
+                return mc.get_routing_table_entries()
+        return mc.get_routing_table_entries(x, y)
+
+    def clear(self, mc, xy, app):
+        x, y, app = self.num(xy[0]), self.num(xy[1]), self.num(app)
+        conv = self.pick("clear_call", ["pos", "kw", "ctx"])
+        if conv == "kw":
+            return mc.clear_routing_table_entries(app_id=app, x=x, y=y)
+        if conv == "ctx":
+            with mc(x=x, y=y, app_id=app):
+                return mc.clear_routing_table_entries()
+        return mc.clear_routing_table_entries(x, y, app)
+
+
+def call_outcome(seconds, f):
+    """run one controller call: 'ok' / the documented errors / what else happened"""
+    from harness import common
+    from rig.machine_control import scp_connection as sc
+    from rig.machine_control.machine_controller import SpiNNakerRouterError
+    try:
+        limited(seconds, f)
+        return "ok"
+    except common.ImplHang as e:
+        _HANGS[0] += 1
+        return ["hang", str(e)]
+    except SpiNNakerRouterError as e:
+        return ["RouterError", int(e.count), int(e.chip[0]), int(e.chip[1])]
+    except struct.error:
+        return ["struct.error"]
+    except (sc.TimeoutError, sc.FatalReturnCodeError) as e:
+        return ["scp", repr(e)]
+    except (RecursionError, OverflowError, MemoryError, TypeError, KeyError, AttributeError, IndexError, ValueError) as e:
+        import traceback
+        tb = traceback.extract_tb(e.__traceback__)
+        return ["undocumented", type(e).__name__, str(e)[:100], "%s:%s" % (tb[-1].name, tb[-1].lineno) if tb else ""]
+
+
+def read_back(seconds, f):
+    """one get_routing_table_entries call: ({"ok": canonical} | {"err": ...}, the list handed back or None)"""
+    box = []
+    out = call_outcome(seconds, lambda: box.append(f()))
+    if out == "ok":
+        return {"ok": [canon_dec(d) for d in box[0]]}, box[0]
+    return {"err": out}, None
+
+
 def run_load_impl(case, full, sv):
     from rig.machine_control import scp_connection as sc
     from rig.machine_control.machine_controller import SpiNNakerRouterError
@@ -1232,51 +1394,43 @@ def run_load_impl(case, full, sv):
         res["rows0"] = {xy: machine.rows_json(xy) for xy in machine.chips}
         start = len(net.log)
         n_pairs = len(machine.pairs)
-        tables = {}
+        cl = Caller(case.get("ak"))
+        secs = case.get("cpu", 30)
+        tables = cl.tables_dict()
         for xy, es in full["tables"]:
-            tables[tuple(xy)] = [RoutingTableEntry({Routes(r) for r in route}, k + ((1 << 32) if full["wide"] and i == len(es) - 1 else 0), m)
-                                 for i, (route, k, m) in enumerate(es)]
-        try:
-            if full["via"] == "entries":
-                (xy, es), = tables.items()
-                mc.load_routing_table_entries(es, xy[0], xy[1], full["app"])
-            else:
-                mc.load_routing_tables(tables, full["app"])
-            res["outcome"] = "ok"
-        except SpiNNakerRouterError as e:
-            res["outcome"] = ["RouterError", e.count, e.chip[0], e.chip[1]]
-        except struct.error:
-            res["outcome"] = ["struct.error"]
-        except (sc.TimeoutError, sc.FatalReturnCodeError) as e:
-            res["outcome"] = ["scp", repr(e)]
+            tables[cl.chip_key(xy)] = cl.table([cl.entry(e, (1 << 32) if full["wide"] and i == len(es) - 1 else 0)
+                                                for i, e in enumerate(es)])
+        if full["via"] == "entries":
+            (xy, es), = tables.items()
+            res["outcome"] = call_outcome(secs, lambda: cl.load_entries(mc, es, xy, full["app"]))
+        else:
+            res["outcome"] = call_outcome(secs, lambda: cl.load_tables(mc, tables, full["app"], (3, 3)))
         res["trace_load"] = traces(net, start)
         res["rows1"] = {xy: machine.rows_json(xy) for xy in machine.chips}
         # read back every chip
         res["readback"] = {}
         res["trace_get"] = {}
         res["alias"] = []
-        for k, xy in enumerate(full["readback"]):
+        for k, xy in enumerate(full["readback"] if res["outcome"][0] != "hang" else []):
             start = len(net.log)
-            try:
-                t = mc.get_routing_table_entries(xy[0], xy[1])
-                res["readback"][xy] = {"ok": [canon_dec(d) for d in t]}
+            res["readback"][xy], t = read_back(secs, lambda: cl.get(mc, xy))
+            if t is not None:
                 # the caller notes an arrival link on its copy of one entry (before any further read-back)
                 alias = caller_edits_readback(t, res["readback"][xy]["ok"],
                                               {"row": case["seed"] % 997 + k, "add": case["seed"] % 24,
                                                "discard_none": case["seed"] % 3 != 0, "list": None})
                 if alias:
                     res["alias"].append((xy,) + alias)
-            except struct.error:
-                res["readback"][xy] = {"err": ["struct.error"]}
-            except (sc.TimeoutError, sc.FatalReturnCodeError) as e:
-                res["readback"][xy] = {"err": ["scp", repr(e)]}
             res["trace_get"][xy] = traces(net, start)
+        if res["outcome"][0] == "hang":
+            full["readback"], full["clear"] = [], False
         if full["clear"]:
             xy = tuple(full["chips"][0]["chip"])
             start = len(net.log)
-            mc.clear_routing_table_entries(xy[0], xy[1], full["app"])
+            res["clear_outcome"] = call_outcome(secs, lambda: cl.clear(mc, xy, full["app"]))
             res["trace_clear"] = traces(net, start)
             res["rows2"] = machine.rows_json(xy)
+        res["ak_used"] = sorted(cl.used)
     res["pairs"] = machine.pairs[n_pairs:]
     restore_default_sources()
     return res
@@ -1426,6 +1580,21 @@ def judge_load(ctx, st, out, count=True):
         if spec_final.get(xy, []) != want:
             raise Infra("simulated router state differs from the Lean specification after the same commands "
                         "(chip %r, case %r)" % (xy, case))
+    for t in res.get("ak_used", []):
+        ctx.tag(t)
+    flt = res.get("fault")
+    out_kind = res["outcome"] if isinstance(res["outcome"], str) else res["outcome"][0]
+    if flt and flt["hit"]:
+        ctx.tag("network_fault_%s_%s" % (flt["kind"], "survived" if out_kind in ("ok", "RouterError") else "call_failed"))
+        if out_kind == "scp":
+            # what a call cut short by the network leaves behind is not this property's business (C06/C07): the
+            # simulator was checked against the specification above, and the later steps of the session are judged
+            # from the routers as they now are
+            if count:
+                ctx.case(case, False)
+            return False
+    elif flt:
+        ctx.tag("network_fault_not_reached")
     # ---- controller model correspondence --------------------------------------------------------
     lm = out[1]
     if lm["trace"] != res["trace_load"]:
@@ -1475,7 +1644,10 @@ def judge_load(ctx, st, out, count=True):
     def violation(key, what):
         reported[0] = True
         ctx.violation(key, label + what, case)
-    if isinstance(res["outcome"], list) and res["outcome"][0] != "RouterError":
+    if out_kind == "hang":
+        # the model's run always ends (load_exact / load_tables_spec give its outcome)
+        violation("did-not-return", "the load did not return: %s" % (res["outcome"][1],))
+    elif isinstance(res["outcome"], list) and res["outcome"][0] != "RouterError":
         violation("unexpected-error", "loading raised %r" % (res["outcome"],))
     any_failed = False
     for (xy, es) in full["tables"]:
@@ -1526,7 +1698,8 @@ def judge_load(ctx, st, out, count=True):
     for xy in rb_list:
         rb = res["readback"][xy]
         if "ok" not in rb:
-            violation("readback-error", "get_routing_table_entries raised %r" % (rb["err"],))
+            violation("did-not-return" if rb["err"][0] == "hang" else "readback-error",
+                      "get_routing_table_entries raised %r" % (rb["err"],))
         elif out[st["rb_idx"][xy]] is not True:
             violation("readback-not-exact", "get_routing_table_entries of chip %r does not return the router's rows "
                       "(1024 items; key, mask, route set, app, core; None for unused)" % (xy,))
@@ -1645,7 +1818,13 @@ def apply_mutation(lst, mu, mk):
 
 def gen_session(rng):
     n_chips = rng.choice([2, 2, 3, 3, 4])
-    coords = rng.sample([(x, y) for x in range(W) for y in range(H)], n_chips)
+    if rng.random() < 0.7:
+        coords = rng.sample([(x, y) for x in range(W) for y in range(H)], n_chips)
+    else:
+        # anywhere in the 256 x 256 coordinate space ((255, 255) is the alias of the root chip)
+        far = [(0, 0), (255, 0), (0, 255), (254, 255), (255, 254), (128, 127), (17, 200), (1, 0), (0, 1)] + \
+              [(rng.randrange(256), rng.randrange(255)) for _ in range(4)]
+        coords = rng.sample(sorted(set(far)), n_chips)
     bufs = rng.sample(range(0x10000), n_chips)
     copies = rng.sample(range(0x1000), n_chips)
     chips = []
@@ -1656,6 +1835,7 @@ def gen_session(rng):
                                            else ["first", "last", "rand"]),
                       "pseed": rng.randrange(1 << 30), "zero": rng.random() < 0.5})
     content = {}          # list id -> current plain content (generator-side mirror)
+    dicts = {}            # dict id -> {chip: list id} (generator-side mirror of the caller's dict objects)
     steps = []
     last = None           # id of the list object loaded by the previous step
     n_lists = 0
@@ -1707,15 +1887,43 @@ def gen_session(rng):
         targets = rng.sample(coords, min(n_chips, rng.choice([1, 1, 2, 3])) if rng.random() < 0.35 else 1)
         rb = [list(xy) for xy in targets if rng.random() < 0.35] + \
              [list(xy) for xy in coords if xy not in targets and rng.random() < 0.1]
-        if len(targets) == 1 and rng.random() < 0.75:
+        if len(targets) == 1 and rng.random() < 0.7:
             step = {"mut": mut, "op": "load", "list": lid, "chip": list(targets[0]), "app": app, "readback": rb}
+        elif dicts and rng.random() < 0.5:
+            # the dict object of an earlier load_routing_tables call again, edited in place by the caller
+            did = rng.choice(sorted(dicts))
+            d = dicts[did]
+            for _ in range(rng.choice([0, 1, 1, 2])):
+                xy = rng.choice(coords)
+                if tuple(xy) in d and rng.random() < 0.4:
+                    mut.append({"m": "ddel", "dict": did, "chip": list(xy)})
+                    del d[tuple(xy)]
+                else:
+                    other = lid if rng.random() < 0.6 else rng.choice(sorted(content))
+                    mut.append({"m": "dset", "dict": did, "chip": list(xy), "list": other})
+                    d[tuple(xy)] = other
+            step = {"mut": mut, "op": "tables", "dict": did, "app": app}
+            step["readback"] = [list(xy) for xy in d if rng.random() < 0.35] + \
+                               [list(xy) for xy in coords if xy not in d and rng.random() < 0.1]
         else:
             # a dict of tables: chips share the list object, or some get another existing list
             tabs = []
-            for xy in targets:
+            for xy in (targets if rng.random() > 0.04 else []):          # (rarely: an empty dict)
                 other = rng.choice(sorted(content))
                 tabs.append([list(xy), lid if rng.random() < 0.7 else other])
-            step = {"mut": mut, "op": "tables", "tables": tabs, "app": app, "readback": rb}
+            did = "d%d" % len(dicts)
+            dicts[did] = collections.OrderedDict((tuple(xy), l) for xy, l in tabs)
+            mut.append({"m": "dnew", "dict": did, "tables": tabs})
+            step = {"mut": mut, "op": "tables", "dict": did, "app": app, "readback": rb if tabs else []}
+        rb = step["readback"]
+        if rng.random() < 0.5:
+            step["ak"] = rng.randrange(1 << 30)          # argument kinds and calling conventions of this step
+        if rng.random() < 0.2:
+            # the network fails once during the load: the n-th datagram of this step is lost (request or reply), answered
+            # with a retryable or a fatal return code, or it and all its retransmissions are lost
+            step["fault"] = {"at": rng.randrange(12), "kind": rng.choice(["lost_request", "lost_reply", "lost_reply",
+                                                                          "rc_retry", "rc_fatal", "dead"]),
+                             "code": rng.choice([0x81, 0x83, 0x84, 0x87, 0x8e])}
         # which of the two controllers of the session loads / reads back; what the caller then does, in place, with
         # the read-back it was handed: the sources set of one returned entry, the returned list itself
         step["ctl"] = rng.choice([0, 0, 0, 1])
@@ -1726,49 +1934,96 @@ def gen_session(rng):
                            for xy in rb if rng.random() < 0.6]
         steps.append(step)
         last = lid
-    return {"kind": "session", "buf": rng.choice([64, 128, 256, 256]), "window": rng.choice([1, 1, 2, 8]),
-            "chips": chips, "steps": steps}
+    case = {"kind": "session", "buf": rng.choice([64, 128, 256, 256]), "window": rng.choice([1, 1, 2, 8]),
+            "n_tries": rng.choice([2, 5, 5]), "timeout": rng.choice([0.5, 1.0, 4.0]), "chips": chips, "steps": steps}
+    if rng.random() < 0.5:
+        case["ak"] = rng.randrange(1 << 30)          # how the caller builds its entries and list objects
+    return case
 
 
 def run_session_impl(case, sv):
-    """one controller, one machine, all steps; returns [(full, res, info)] per step in the shape prepare_from expects"""
-    from rig.machine_control import scp_connection as sc
-    from rig.machine_control.machine_controller import SpiNNakerRouterError
-    from rig.routing_table import RoutingTableEntry, Routes
+    """two controllers, one machine, all steps; returns ([(full, res, info)] per step in the shape prepare_from expects,
+    kept read-backs that changed after they were returned)"""
+    fresh_rig()
     chips = [dict(c, rows=gen_rows(random.Random(c["rows_seed"]), c["rows_kind"])) for c in case["chips"]]
     desc = {tuple(c["chip"]): c for c in chips}
     machine = RouterMachine(chips, case["buf"], sv)
-    net = simnet.Net(machine.handle, lambda k, data: [(1, "ok")])
+    fs = {"fault": None, "n": 0, "dead": None, "hit": False}
 
-    def mk(e):
-        return RoutingTableEntry({Routes(r) for r in e[0]}, e[1], e[2])
+    def script(k, data):
+        f = fs["fault"]
+        q = simnet.parse_scp(data)
+        if f is None or q["cmd"] == 0:
+            return [(1, "ok")]
+        if fs["dead"] is not None:
+            return [] if q["seq"] == fs["dead"] else [(1, "ok")]
+        j = fs["n"]
+        fs["n"] += 1
+        if j != f["at"]:
+            return [(1, "ok")]
+        fs["hit"] = True
+        if f["kind"] == "lost_reply":
+            machine.handle(data)                  # executed by the chip, the reply never arrives
+            machine.pairs[-1]["lost"] = True
+        elif f["kind"] in ("rc_retry", "rc_fatal"):
+            # the chip refuses the datagram (not executed): a retryable code (checksum / busy) or a fatal one
+            rc = (0x82 if f["code"] % 2 else 0x8d) if f["kind"] == "rc_retry" else f["code"]
+            reply = simnet.make_reply(data, rc)
+            did = net.next_id
+            net.next_id += 1
+            net.dgram[did] = dict(rc=rc, seq=q["seq"], origin_send=k, bytes=reply)
+            net.queue.append([net.now + 1, net.order, did, reply])
+            net.order += 1
+        elif f["kind"] == "dead":
+            fs["dead"] = q["seq"]
+        return []
+    net = simnet.Net(machine.handle, script)
+    maker = Caller(case.get("ak"))
     objs, content = {}, {}        # the caller's list objects / the same content as plain data
+    dobjs, dcontent = {}, {}      # the caller's dict objects / {chip: list id}
     loaded = {}                   # list id -> content when that object was last handed to a load
-    out = []
+    out, kept = [], []
     longest = 1
     with simnet.installed(net):
-        mcs = [simmachine.make_controller(net), simmachine.make_controller(net)]
+        mcs = [simmachine.make_controller(net, n_tries=case.get("n_tries", 5), timeout=case.get("timeout", 4.0)),
+               simmachine.make_controller(net, n_tries=case.get("n_tries", 5), timeout=case.get("timeout", 4.0))]
         for mc in mcs:
             mc._window_size = case.get("window", 1)
             _ = mc.scp_data_length
         for step in case["steps"]:
             mc = mcs[step.get("ctl", 0)]
+            cl = Caller(step.get("ak"))
             for mu in step["mut"]:
                 if mu["m"] == "new":
-                    objs[mu["list"]] = [mk(e) for e in mu["entries"]]
+                    objs[mu["list"]] = maker.table([maker.entry(e) for e in mu["entries"]], mutable=True)
                     content[mu["list"]] = [list(e) for e in mu["entries"]]
                     loaded.pop(mu["list"], None)
+                elif mu["m"] == "dnew":
+                    dobjs[mu["dict"]] = cl.tables_dict()
+                    dcontent[mu["dict"]] = collections.OrderedDict()
+                    for xy, lid in mu["tables"]:
+                        dobjs[mu["dict"]][cl.chip_key(xy)] = objs[lid]
+                        dcontent[mu["dict"]][tuple(xy)] = lid
+                elif mu["m"] == "dset":
+                    dobjs[mu["dict"]][tuple(mu["chip"])] = objs[mu["list"]]
+                    dcontent[mu["dict"]][tuple(mu["chip"])] = mu["list"]
+                elif mu["m"] == "ddel":
+                    del dobjs[mu["dict"]][tuple(mu["chip"])]
+                    del dcontent[mu["dict"]][tuple(mu["chip"])]
                 else:
-                    apply_mutation(objs[mu["list"]], mu, mk)
+                    apply_mutation(objs[mu["list"]], mu, maker.entry)
                     apply_mutation(content[mu["list"]], mu, lambda e: list(e))
             if step["op"] == "load":
                 tabs = [[step["chip"], step["list"]]]
+            elif "dict" in step:
+                tabs = [[list(xy), lid] for xy, lid in dcontent[step["dict"]].items()]
             else:
                 tabs = step["tables"]
             ids = sorted({lid for _, lid in tabs})
             info = {"reused_changed": any(lid in loaded and loaded[lid] != content[lid] for lid in ids),
                     "reused_same": any(lid in loaded and loaded[lid] == content[lid] for lid in ids),
-                    "shared": len(tabs) > len(ids)}
+                    "shared": len(tabs) > len(ids), "dict_reused": "dict" in step and not any(
+                        mu["m"] == "dnew" for mu in step["mut"]), "empty_dict": step["op"] == "tables" and not tabs}
             longest = max([longest] + [len(v) for v in content.values()])
             targets = [tuple(xy) for xy, _ in tabs]
             full = {"chips": [desc[xy] for xy in targets],
@@ -1783,45 +2038,56 @@ def run_session_impl(case, sv):
                            for xy in targets}
             start = len(net.log)
             n_pairs = len(machine.pairs)
-            try:
-                if step["op"] == "load":
-                    xy = targets[0]
-                    mc.load_routing_table_entries(objs[step["list"]], xy[0], xy[1], step["app"])
-                else:
-                    mc.load_routing_tables({tuple(xy): objs[lid] for xy, lid in tabs}, step["app"])
-                res["outcome"] = "ok"
-            except SpiNNakerRouterError as e:
-                res["outcome"] = ["RouterError", e.count, e.chip[0], e.chip[1]]
-            except struct.error:
-                res["outcome"] = ["struct.error"]
-            except (sc.TimeoutError, sc.FatalReturnCodeError) as e:
-                res["outcome"] = ["scp", repr(e)]
+            fs.update(fault=step.get("fault"), n=0, dead=None, hit=False)
+            if step["op"] == "load":
+                res["outcome"] = call_outcome(30, lambda: cl.load_entries(mc, objs[step["list"]], targets[0], step["app"]))
+            elif "dict" in step:
+                res["outcome"] = call_outcome(30, lambda: cl.load_tables(mc, dobjs[step["dict"]], step["app"],
+                                                                         tuple(case["chips"][0]["chip"])))
+            else:
+                tables = cl.tables_dict()
+                for xy, lid in tabs:
+                    tables[cl.chip_key(xy)] = objs[lid]
+                res["outcome"] = call_outcome(30, lambda: cl.load_tables(mc, tables, step["app"],
+                                                                         tuple(case["chips"][0]["chip"])))
+            res["fault"] = dict(step["fault"], hit=fs["hit"]) if step.get("fault") else None
+            fs.update(fault=None, dead=None)
             for lid in ids:
                 loaded[lid] = [list(e) for e in content[lid]]
             res["trace_load"] = traces(net, start)
             res["rows1"] = {xy: machine.rows_json(xy) for xy in machine.chips}
             res["readback"], res["trace_get"], res["alias"] = {}, {}, []
             edits = {tuple(e["chip"]): e for e in step.get("rb_edit", [])}
+            hung = res["outcome"][0] == "hang"
+            if hung:
+                full["readback"] = []
             for xy in full["readback"]:
                 start = len(net.log)
-                try:
-                    t = mcs[step.get("rb_ctl", 0)].get_routing_table_entries(xy[0], xy[1])
-                    before = [canon_dec(d) for d in t]
-                    res["readback"][xy] = {"ok": before}
+                res["readback"][xy], t = read_back(30, lambda: cl.get(mcs[step.get("rb_ctl", 0)], xy))
+                if t is not None:
                     if xy in edits:
                         # the caller edits ITS copy of one entry; all other entries it holds must stay what they were
-                        alias = caller_edits_readback(t, before, edits[xy])
+                        alias = caller_edits_readback(t, res["readback"][xy]["ok"], edits[xy])
                         if alias:
                             res["alias"].append((xy,) + alias)
-                except struct.error:
-                    res["readback"][xy] = {"err": ["struct.error"]}
-                except (sc.TimeoutError, sc.FatalReturnCodeError) as e:
-                    res["readback"][xy] = {"err": ["scp", repr(e)]}
+                    else:
+                        kept.append((len(out), xy, t, res["readback"][xy]["ok"]))     # kept untouched to the end
+                elif res["readback"][xy]["err"][0] == "hang":
+                    hung = True
                 res["trace_get"][xy] = traces(net, start)
+            res["ak_used"] = sorted(cl.used | maker.used)
             res["pairs"] = machine.pairs[n_pairs:]
             out.append((full, res, info))
+            if hung:
+                break               # the controller's state after a call that did not return is anybody's guess
+    changed = []
+    for k, xy, t, was in kept:
+        now = [canon_dec(d) for d in t]
+        if now != was:
+            j = next(i for i, (a, b) in enumerate(zip(was, now)) if a != b) if len(now) == len(was) else -1
+            changed.append((k, xy, j, was[j] if j >= 0 else len(was), now[j] if j >= 0 else len(now)))
     restore_default_sources()
-    return out
+    return out, changed
 
 
 def eval_sessions(ctx, cases, batch=12):
@@ -1830,7 +2096,8 @@ def eval_sessions(ctx, cases, batch=12):
         items, reqs = [], []
         for case in cases[i:i + batch]:
             steps = []
-            for k, (full, res, info) in enumerate(run_session_impl(case, sv)):
+            ran, changed = run_session_impl(case, sv)
+            for k, (full, res, info) in enumerate(ran):
                 what = "load_routing_table_entries" if full["via"] == "entries" else "load_routing_tables"
                 # (the controller model of the read-back is compared in the single-load stream; here the read-back is
                 # judged by the Lean oracle ReadbackSpec and the simulator replay only)
@@ -1838,10 +2105,14 @@ def eval_sessions(ctx, cases, batch=12):
                                       "it is at this call): " % (k + 1, len(case["steps"]), what))
                 steps.append((st, len(reqs), len(reqs) + len(rq), info))
                 reqs += rq
-            items.append((case, steps))
+            items.append((case, steps, changed))
         out = ctx.lean(reqs)
-        for case, steps in items:
+        for case, steps, changed in items:
             nontrivial = False
+            for k, xy, j, was, now in changed:
+                ctx.violation("result-changed-after-return",
+                              "the table read back from chip %r in step %d, which the caller kept untouched, changed after "
+                              "it was returned: item %d was %r, is now %r" % (xy, k + 1, j, was, now), case)
             for k, (st, a, b, info) in enumerate(steps):
                 judge_load(ctx, st, out[a:b], count=False)
                 ctx.tag("session_step")
@@ -1856,6 +2127,10 @@ def eval_sessions(ctx, cases, batch=12):
                     ctx.tag("session_list_reused_unchanged")
                 if info["shared"]:
                     ctx.tag("session_chips_share_list_object")
+                if info.get("dict_reused"):
+                    ctx.tag("session_dict_object_reused_after_edit")
+                if info.get("empty_dict"):
+                    ctx.tag("session_empty_dict")
             ctx.tag("session")
             ctx.case(case, nontrivial)
 
@@ -1954,6 +2229,8 @@ def gen_load_cases(ctx, n, lost=False):
              "window": rng.choice([1, 1, 2, 8]), "wide": rng.random() < 0.02 and not lost}
         if lost:
             c["lost"] = True
+        if rng.random() < 0.5:
+            c["ak"] = rng.randrange(1 << 30)        # argument kinds and calling conventions (class Caller)
         cases.append(c)
     return cases
 
